@@ -127,7 +127,7 @@ def generic_shard(mod, prop, tier, dseed, shard, n_examples, budget_s):
     t0 = time.time()
     state = {"fail": None, "fail_t": None, "best": None, "herr": None, "first": None, "history": None}
     history = collections.deque(maxlen=HISTORY_KEPT)
-    shrink_budget = 45.0 if tier == "quick" else 240.0
+    shrink_budget = float(os.environ.get("VERIF_SHRINK_S") or (45.0 if tier == "quick" else 240.0))   # (maintenance runs shorten it)
     strat = mod.strategy(tier)
 
     def body(case):
